@@ -107,11 +107,11 @@ Args:
         s = self._sampler
         # the following "seems" to work; all/more necessary?
         #XXX: add this method as internal method for ensemble solver?
-        from copy import copy as _copy
-        solver = s._AbstractEnsembleSolver__get_solver_instance(reset=True)
+        fresh = s._AbstractEnsembleSolver__get_solver_instance
         #solver.SetEvaluationMonitor(solver._evalmon[:0], new=True)
         #solver.SetGenerationMonitor(solver._stepmon[:0], new=True)
-        [s._allSolvers.__setitem__(i, _copy(solver)) for i,j in enumerate(s.Terminated(all=True)) if j is True]
+        # each terminated solver is replaced by its own new instance
+        [s._allSolvers.__setitem__(i, fresh(reset=True)) for i,j in enumerate(s.Terminated(all=True)) if j is True]
         s._bestSolver = None
         s._AbstractEnsembleSolver__update_state()
         return
